@@ -784,6 +784,8 @@ def alias_overwrite_family(quick):
     out.append(("alias:one-char-target-function", "functie zet(doel, bron) { doel[0] = bron; lengte(bron) } stel d = \"y\"; stel b = \"euro\"; [zet(d, b), d, b]", [4, "euro", "euro"]))
     out.append(("alias:recycled-text", "functie a() { stel t = \"ééééé\"; t[3] } functie b() { stel u = \"abcdefgh\"; u[5] } functie c() { stel v = \"€€€\"; [v[2], v[0]] } functie d() { stel w = \"0123456789\"; [w[4], w[-1]] }; [a(), b(), a(), b(), c(), d(), c(), d()]",
                 ["é", "f", "é", "f", ["€", "€"], ["4", "9"], ["€", "€"], ["4", "9"]]))
+    out.append(("alias:recycled-text-argument", "functie teken(tekst, i) { tekst[i] }; functie laatste(woord) { woord[lengte(woord) - 1] }; [teken(\"ééééééééééééé-abcdefghijklm\", 14), teken(\"abcdefghijklmnopqrstuvwxyz0123456789\", 14), teken(\"ééééééééééééé-abcdefghijklm\", 16), teken(\"abcdefghijklmnopqrstuvwxyz0123456789\", 16), laatste(\"één\"), laatste(\"twee\"), laatste(\"drieëntwintig\"), laatste(\"vier\"), teken(\"😀😀😀😀😀\", 4), teken(\"0123456789\", 9)]",
+                ["a", "o", "c", "q", "n", "e", "g", "r", "😀", "9"]))
     out.append(("alias:recycled-text-loop", "functie lees(w, k) { stel t = string(w); t[k] }; stel uit = []; stel i = 0; stel r = \"\"; zolang i < 6 { i += 1; r = lees(\"héé😀ab\", 4); r = lees(\"twee\", 3); r = lees(\"😀😀😀😀\", 2); r = lees(\"abcdef\", 5) }; [r, lees(\"één\", 2), lees(\"xyz\", 2)]", ["f", "n", "z"]))
     out.append(("alias:char", "stel s = \"banaan\"; stel c = s[1]; c[0] = \"X\"; stel q = s[3]; [s, c, s[1], q, lengte(q)]", ["banaan", "X", "a", "a", 1]))
     out.append(("alias:char2", "stel s = \"aaa\"; stel c = s[0]; stel d = s[0]; c[0] = \"oe\"; [c, d, s, s[-1]]", ["oe", "a", "aaa", "a"]))
